@@ -171,8 +171,8 @@ def jobs(tier, seed=0):
     B(lambda: L.packetfifo_inst("PacketFIFO(5,buffered)/no params/8b", 5, buffered=True, dwid=8, alphabet=False,
                                 overlong_from=OV, noparam=True))
     A(lambda: L.packetfifo_inst("PacketFIFO(0,buffered)", 0, buffered=True, tokens=T3))
-    # candidate finding (buffered payload FIFO + PipeValid param queue): model comparison only
-    A(lambda: L.packetfifo_inst("defect-region/PacketFIFO(2,param_depth=0,buffered)", 2, 0, buffered=True, tokens=T3))
+    # buffered payload FIFO + PipeValid param queue (fixed finding C16-packetfifo-buffered-param-depth0)
+    A(lambda: L.packetfifo_inst("PacketFIFO(2,param_depth=0,buffered)", 2, 0, buffered=True, tokens=T3))
     A(lambda: L.packetfifo_inst("PacketFIFO(3,param_depth=1,buffered)/T2", 3, 1, buffered=True, tokens=T2))
     B(lambda: L.packetfifo_inst("PacketFIFO(8,buffered)/8b", 8, buffered=True, dwid=8, pwid=8, alphabet=False,
                                 overlong_from=OV))
@@ -192,11 +192,11 @@ def jobs(tier, seed=0):
         B(lambda pd=pd, qd=qd, wid=wid, buf=buf:
           L.packetfifo_inst("PacketFIFO(%d,%s%s)/%db" % (pd, qd, ",buffered" if buf else "", wid), pd, qd,
                             buffered=buf, dwid=wid, pwid=wid, alphabet=False, overlong_from=OV))
+    # fixed finding C16-packetfifo-buffered-param-depth0: param queue faster than the payload output register
     for (pd, qd, wid) in ((4, 0, 8),) if quick else ((4, 0, 8), (2, 0, 64), (7, 0, 8)):
         B(lambda pd=pd, qd=qd, wid=wid:
-          L.packetfifo_inst("defect-region/PacketFIFO(%d,%d,buffered)/%db" % (pd, qd, wid), pd, qd, buffered=True,
-                            dwid=wid, pwid=wid, alphabet=False, overlong_from=150), with_monitor=False,
-          cycles=200, runs=12 if quick else 120)      # the defect wedges the FIFO: many short runs from reset
+          L.packetfifo_inst("PacketFIFO(%d,%d,buffered)/%db" % (pd, qd, wid), pd, qd, buffered=True,
+                            dwid=wid, pwid=wid, alphabet=False, overlong_from=OV))
     # ---- Arbiter / Dispatcher (payload = data | first << dwid) -----------------------------------------------
     A(lambda: L.arbiter_inst("Arbiter(2)", 2))
     A(lambda: L.arbiter_inst("Arbiter(3)", 3, payload_values=(0, 3)))
@@ -384,8 +384,8 @@ ASSUMPTIONS = [
     "length are modelled (encodeL/decodeL), characterised by theorems (last writer wins, clipped fields) and tied; "
     "the _lsb/_msb name convention and the width check of Header.get_field are modelled and tied",
     "PacketFIFO is modelled for every payload_depth / param_depth (wire, PipeValid register, SyncFIFO, "
-    "SyncFIFOBuffered); the atomicity theorem excludes buffered=True with payload_depth >= 2 and param_depth = 0 "
-    "(candidate finding, modelled faithfully and compared without monitor); Arbiter / Dispatcher for every port "
+    "SyncFIFOBuffered) and follows the fixed code (source.valid = param valid & payload valid, fixed finding "
+    "C16-packetfifo-buffered-param-depth0): atomicity holds for every combination; Arbiter / Dispatcher for every port "
     "count incl. 0 and 1 (plain Endpoint.connect) as the constructors build them",
     "the optional `error` payload field of Packetizer / Depacketizer is a combinational pass-through (modelled as "
     "a wrapper of the port encoding, compared exhaustively on small instances)",
@@ -434,7 +434,8 @@ def build_named(spec):
     """Build an instance from a corpus/probe description {'kind':…, …}."""
     k = spec["kind"]
     if k == "packetfifo":
-        return L.packetfifo_inst(spec.get("name", "PacketFIFO"), spec["pd"], spec.get("qd"), dwid=spec.get("dwid", 8),
+        return L.packetfifo_inst(spec.get("name", "PacketFIFO"), spec["pd"], spec.get("qd"),
+                                 buffered=spec.get("buffered", False), dwid=spec.get("dwid", 8),
                                  pwid=spec.get("pwid", 8), alphabet=False)
     f = {n: tuple(v) for n, v in spec.get("fields", {}).items()}
     if k == "packetizer":
@@ -503,12 +504,15 @@ def probe_packetfifo_param_dup():
 
 
 def probe_packetfifo_buffered_param_depth0():
-    """Candidate finding C16-packetfifo-buffered-param-depth0: PacketFIFO(payload_depth >= 2, param_depth = 0,
+    """Fixed finding C16-packetfifo-buffered-param-depth0: PacketFIFO(payload_depth >= 2, param_depth = 0,
     buffered=True) - the param queue is a PipeValid register (readable one cycle after the push), the payload
-    queue a SyncFIFOBuffered (readable two cycles after): source.valid with the stale payload output register."""
+    queue a SyncFIFOBuffered (readable two cycles after).  Before the fix source.valid followed the param queue
+    alone and a beat that was never accepted (stale payload output register) was delivered; the fix is
+    source.valid = param valid & payload valid."""
     inst = L.packetfifo_inst("PacketFIFO(2,0,buffered)/probe", 2, 0, buffered=True, dwid=8, pwid=8, alphabet=False)
     #        v  data  param last ready
-    trace = [(1, 107, 48, 1, 1), (0, 0, 0, 0, 1), (0, 0, 0, 0, 1), (0, 0, 0, 0, 1), (0, 0, 0, 0, 1)]
+    trace = [(1, 107, 48, 1, 1), (0, 0, 0, 0, 1), (0, 0, 0, 0, 1), (1, 21, 9, 0, 1), (1, 22, 9, 1, 1),
+             (0, 0, 0, 0, 0), (0, 0, 0, 0, 1), (0, 0, 0, 0, 1), (0, 0, 0, 0, 1), (0, 0, 0, 0, 1)]
     return _run_trace(inst, trace)
 
 
@@ -592,8 +596,8 @@ PROBES = [
     ("C16-depacketizer-residue-end", probe_depacketizer_residue_end,
      "Depacketizer, unaligned header: packet ending inside the residue beat swallows the next packet's first beat"),
     ("C16-packetfifo-buffered-param-depth0", probe_packetfifo_buffered_param_depth0,
-     "PacketFIFO(buffered=True, payload_depth >= 2, param_depth = 0): source.valid one cycle before the payload "
-     "output register is loaded - a beat that was never accepted is delivered"),
+     "PacketFIFO(buffered=True, payload_depth >= 2, param_depth = 0): source.valid must wait for the payload output "
+     "register (before the fix a beat that was never accepted was delivered)"),
     ("C16-header-swap-odd-width", probe_swap_odd_width,
      "Header with swap_field_bytes: field wider than 8 bits and not a whole number of bytes does not round-trip"),
 ]
